@@ -267,9 +267,9 @@ def uninit_apis(an, rep, extra_crates=(), crate=None):
 
 
 def unbounded_lifetimes(an, rep, crate=None):
-    R = rep.rule("U7", "no function has a lifetime parameter that occurs in its return type but in none of its argument types "
-                       "and no where-clause (an unbounded lifetime: the caller may choose 'static, so a reference handed out "
-                       "through it outlives whatever it points into)")
+    R = rep.rule("U7", "no function containing unsafe code has a lifetime parameter that occurs in its return type but in none "
+                       "of its argument types and no where-clause (an unbounded lifetime: the caller may choose 'static, so a "
+                       "reference manufactured in the unsafe block outlives whatever it points into)")
     import re
     core = crate or an.core()
     n = 0
@@ -278,6 +278,10 @@ def unbounded_lifetimes(an, rep, crate=None):
         if not sig or b.test:
             continue
         n += 1
+        # in safe code the borrow checker only lets such a function return 'static data; the danger is a reference
+        # manufactured in an unsafe block
+        if not b.unsafe_fn and not any(u["user"] for u in b.unsafe_blocks):
+            continue
         for lt in sig["lifetimes"]:
             rx = re.compile(re.escape(lt) + r"(?![A-Za-z0-9_])")
             in_out = bool(rx.search(sig["output"]))
